@@ -718,8 +718,9 @@ fn channel(kind: &str, seed: u64, arg: u64, g: &[Vec<u8>]) -> Vec<Vec<u8>> {
             // bit i of arg set = packet i is delivered
             v = v.into_iter().enumerate().filter(|(i, _)| *i < 64 && (arg >> i) & 1 == 1).map(|(_, p)| p).collect();
         }
-        "nofdt" | "holes" | "halffdt" => {
-            // nofdt: no TOI-0 packet at all; holes: the symbol with ESI = arg of every block is lost;
+        "nofdt" | "holes" | "holesb" | "halffdt" => {
+            // nofdt: no TOI-0 packet at all; holes: the symbol with ESI = arg of every block is lost
+            // (holesb: and the packet carrying the close-object flag, so that the object stalls);
             // halffdt: every second packet of every FDT instance is lost (instances never complete)
             let mut w = Vec::new();
             let mut fdt_seen = 0u64;
@@ -733,10 +734,11 @@ fn channel(kind: &str, seed: u64, arg: u64, g: &[Vec<u8>]) -> Vec<Vec<u8>> {
                                 "halffdt" => fdt_seen % 2 == 0,
                                 _ => true,
                             }
-                        } else if kind == "holes" {
+                        } else if kind == "holes" || kind == "holesb" {
                             // payload id of No-Code / Raptor: sbn 16 bits, esi 16 bits
                             let pid = &p[pk.data_alc_header_offset..pk.data_payload_offset];
                             !(pid.len() == 4 && (u16::from_be_bytes([pid[2], pid[3]]) as u64) == arg)
+                                && !(kind == "holesb" && pk.lct.close_object)
                         } else {
                             true
                         }
@@ -773,10 +775,19 @@ pub fn eval(input: &str) -> String {
     let seq = channel(x[1], seed, arg, &sess.genuine);
     let mut cleanup_at: Vec<usize> = Vec::new();
     let mut sleep_at: Vec<(usize, u64)> = Vec::new();
+    // sleepfdt@j:ms = sleep before the first datagram of the j-th distinct FDT instance id (0-based)
+    let mut sleep_fdt: Vec<(usize, u64)> = Vec::new();
     let mut drop_at: Option<usize> = None;
     if let Some(e) = secs.iter().find(|s| s[0] == "E") {
         for it in e[1..].iter().flat_map(|s| s.split(',')) {
-            if let Some(i) = it.strip_prefix("cleanup@") {
+            if it == "cleanup@end" {
+                cleanup_at.push(usize::MAX);
+            } else if let Some(ms) = it.strip_prefix("sleepend:") {
+                sleep_at.push((usize::MAX, ms.parse().unwrap_or(50)));
+            } else if let Some(i) = it.strip_prefix("sleepfdt@") {
+                let kv: Vec<&str> = i.split(':').collect();
+                sleep_fdt.push((kv[0].parse().unwrap_or(0), kv.get(1).and_then(|x| x.parse().ok()).unwrap_or(50)));
+            } else if let Some(i) = it.strip_prefix("cleanup@") {
                 cleanup_at.push(i.parse().unwrap_or(0));
             } else if let Some(i) = it.strip_prefix("drop@") {
                 drop_at = Some(i.parse().unwrap_or(0));
@@ -812,8 +823,11 @@ pub fn eval(input: &str) -> String {
     let now = t_ms(1000);
     let mut dead = false;
     // wall-clock bookkeeping mirroring the receiver's Instant-based time-outs (oracle for the model)
-    let mut last_seen_obj: HashMap<u128, std::time::Instant> = HashMap::new();
-    let mut last_seen_fdt: HashMap<u32, std::time::Instant> = HashMap::new();
+    // per TOI / FDT instance id: instants taken before and after the last push (the receiver's own
+    // Instant::now() lies between them)
+    let mut last_seen_obj: HashMap<u128, (std::time::Instant, std::time::Instant)> = HashMap::new();
+    let mut last_seen_fdt: HashMap<u32, (std::time::Instant, std::time::Instant)> = HashMap::new();
+    let mut fdt_ids_seen: Vec<u32> = Vec::new();
     let otimeout = c.get("otimeout").and_then(|s| s.parse::<u64>().ok()).map(Duration::from_millis);
     // a trailing cleanup (index = number of datagrams) is allowed
     let nseq = seq.len();
@@ -822,26 +836,33 @@ pub fn eval(input: &str) -> String {
             break;
         }
         for (at, ms) in &sleep_at {
-            if *at == i {
+            if *at == i || (*at == usize::MAX && i == nseq) {
                 std::thread::sleep(Duration::from_millis(*ms));
             }
         }
-        if cleanup_at.contains(&i) {
+        if cleanup_at.contains(&i) || (i == nseq && cleanup_at.contains(&usize::MAX)) {
             if let Some(r) = receiver.as_mut() {
                 let t0 = std::time::Instant::now();
                 let h0 = crate::live_bytes();
                 let ok = catch(std::panic::AssertUnwindSafe(|| r.cleanup(now))).is_some();
                 recv_heap += crate::live_bytes() - h0 - sh.borrow().log.iter().map(|s| s.capacity() as isize).sum::<isize>();
+                let t1 = std::time::Instant::now();
+                // idle time as the receiver measured it lies in [t0 - after_push, t1 - before_push]:
+                // certainly expired, certainly not, or (marked '?') undecidable from outside
                 let (mut eo, mut ef): (Vec<String>, Vec<String>) = (Vec::new(), Vec::new());
                 if let Some(to) = otimeout {
-                    for (t, ls) in &last_seen_obj {
-                        if t0.duration_since(*ls) > to {
+                    for (t, (tb, ta)) in &last_seen_obj {
+                        if t0.saturating_duration_since(*ta) > to {
                             eo.push(format!("{:x}", t));
+                        } else if t1.saturating_duration_since(*tb) > to {
+                            eo.push(format!("{:x}?", t));
                         }
                     }
-                    for (t, ls) in &last_seen_fdt {
-                        if t0.duration_since(*ls) > to {
+                    for (t, (tb, ta)) in &last_seen_fdt {
+                        if t0.saturating_duration_since(*ta) > to {
                             ef.push(format!("{:x}", t));
+                        } else if t1.saturating_duration_since(*tb) > to {
+                            ef.push(format!("{:x}?", t));
                         }
                     }
                 }
@@ -875,18 +896,31 @@ pub fn eval(input: &str) -> String {
             None => break,
         };
         let desc = describe_datagram(d, 1);
-        if let Ok(pk) = flute::core::alc::parse_alc_pkt(d) {
-            if pk.lct.toi == 0 {
-                if let Some(fi) = pk.fdt_info.as_ref() {
-                    last_seen_fdt.insert(fi.fdt_instance_id, std::time::Instant::now());
+        let parsed = flute::core::alc::parse_alc_pkt(d).ok().map(|pk| (pk.lct.toi, pk.fdt_info.as_ref().map(|f| f.fdt_instance_id)));
+        if let Some((0, Some(id))) = parsed {
+            if !fdt_ids_seen.contains(&id) {
+                for (j, ms) in &sleep_fdt {
+                    if *j == fdt_ids_seen.len() {
+                        std::thread::sleep(Duration::from_millis(*ms));
+                    }
                 }
-            } else {
-                last_seen_obj.insert(pk.lct.toi, std::time::Instant::now());
+                fdt_ids_seen.push(id);
             }
         }
+        let tb = std::time::Instant::now();
         let h0 = crate::live_bytes();
         let res = catch(std::panic::AssertUnwindSafe(|| r.push_data(d, now)));
         recv_heap += crate::live_bytes() - h0 - sh.borrow().log.iter().map(|s| s.capacity() as isize).sum::<isize>();
+        let ta = std::time::Instant::now();
+        match parsed {
+            Some((0, Some(id))) => {
+                last_seen_fdt.insert(id, (tb, ta));
+            }
+            Some((toi, _)) if toi != 0 => {
+                last_seen_obj.insert(toi, (tb, ta));
+            }
+            _ => {}
+        }
         let rs = match res {
             Some(Ok(_)) => "Ok",
             Some(Err(_)) => "Err",
@@ -1016,7 +1050,7 @@ fn gen_mem(args: &Args, emit: &mut dyn FnMut(String)) {
         let cache = *rng.pick(&[64u64, 256, 1024, 4096, 10485760]);
         let maxerr = *rng.pick(&[0u32, 1, 3]);
         let (fec, par) = if rng.chance(1, 3) { ("rs28", 1) } else { ("nocode", 0) };
-        let scenario = rng.below(6);
+        let scenario = if nobj >= 3 { rng.below(7) } else { rng.below(6) };
         let (fti, xk, xa, extra, ev): (u32, &str, u64, String, String) = match scenario {
             // packets without FTI and no FDT: everything is cached
             0 => (0, "nofdt", 0, String::new(), String::new()),
@@ -1031,9 +1065,15 @@ fn gen_mem(args: &Args, emit: &mut dyn FnMut(String)) {
                 let n = rng.range(5, 40);
                 (1, "holes", 0, format!(" otimeout=25 fdte={} mode=bt", rng.pick(&[32u32, 1400])), format!(" ; E sleep@{}:60,cleanup@{}", n, n))
             }
-            _ => {
+            5 => {
                 let n = rng.range(5, 60);
                 (0, "nofdt", 0, " otimeout=25".to_string(), format!(" ; E sleep@{}:60,cleanup@{}", n, n))
+            }
+            // an object stalls, later objects bring new FDT instances at intervals shorter than the
+            // time-out: the stalled ones must still be released (only their own packets are activity)
+            _ => {
+                let j = 2; // instances 0 and 1 precede the first object
+                (1, "holesb", 0, " otimeout=200 fdte=1400 mode=bt pq=0:1".to_string(), format!(" ; E sleepfdt@{}:120,sleepfdt@{}:120,sleepend:120,cleanup@end", j, j + 1))
             }
         };
         emit(format!(
